@@ -483,16 +483,21 @@ def test_variational(ctx, model):
     extra = dict(test="variational", mode=mode, method=method, vguess_m=list(guess), max_bonddim=M, schmidt_ranks=ranks,
                  operator=lc.dump_chain(O), entry=entry)
     # is the guess (compressed mpo @ compressed mps, as variational_compress builds it) lossy / zero?
+    starved = False
     try:
         go = O.copy().canonicalise().compress(temp_m_trunc=guess[0])
         gp = psi.copy().canonicalise().compress(temp_m_trunc=guess[1])
-        gerr = nrm(lc.dense_state(go) @ lc.dense_state(gp) - P) / nrm(P)
+        G = lc.dense_state(go) @ lc.dense_state(gp)
+        gerr = nrm(G - P) / nrm(P)
+        if gerr > 1e-8:
+            # does the truncated guess lack a symmetry sector that the exact product occupies on some bond?
+            starved = any(a - b for a, b in zip(lc.bond_sectors(P, model, skind, 1e-7), lc.bond_sectors(G, model, skind, 1e-12)))
     except Exception:  # noqa: BLE001
         gerr = 1.0
     if gerr > 1 - 1e-6:
         run.count("rejected:variational-guess-vanishes")
         return
-    run.count(f"variational:{mode}:" + ("guess-lossy" if gerr > 1e-8 else "guess-exact"))
+    run.count(f"variational:{mode}:" + ("guess-lossy" if gerr > 1e-8 else "guess-exact") + ("-sector-lost" if starved else ""))
     ctx.tally(("var", n, model.qn_size, tuple(int(b) for b in psi.bond_dims), tuple(int(b) for b in O.bond_dims), mode, guess, M),
               max(psi.bond_dims) >= 2 and max(O.bond_dims) >= 2 and gerr > 1e-8)
     np.random.seed(int(rng.integers(2 ** 31 - 1)))   # svd_qn.add_orthonormal_basis uses np.random
@@ -517,8 +522,10 @@ def test_variational(ctx, model):
     err = nrm(obs - P) / nrm(P)
     run.count("variational:err<=1e-10" if err <= 1e-10 else ("variational:err<=1e-8" if err <= 1e-8 else "variational:err>1e-8"))
     if not err <= VAR_TOL:
-        viol(ctx, f"variational:{mode}:not-converged-to-product", psi, dict(extra, rel_err=err, guess_rel_err=gerr,
-                                                                            bond_dims=[int(b) for b in r.bond_dims]))
+        # a guess that lost a whole sector cannot be repaired by the sweeps (new bond labels must join
+        # labels already present on both neighbouring bonds): reproduced by hand, own signature
+        sig = f"variational:{mode}:guess-lacks-sector:stalled" if starved else f"variational:{mode}:not-converged-to-product"
+        viol(ctx, sig, psi, dict(extra, rel_err=err, guess_rel_err=gerr, bond_dims=[int(b) for b in r.bond_dims]))
         return
     if max(r.bond_dims) > M:
         viol(ctx, f"variational:{mode}:bond-over-limit", psi, dict(extra, bond_dims=[int(b) for b in r.bond_dims]))
